@@ -179,6 +179,169 @@ struct Counters {
     build_failures: AtomicU64,
 }
 
+// ---------------------------------------------------------------------------
+// family "route graphs": origin (slot 0) and destination (slot 1) joined by
+// 2..3 internally disjoint routes of 1..3 edges each, optionally plus one more
+// edge between any ordered pair of nodes (shortcut, back edge, loop, parallel).
+// Up to 8 nodes / 10 edges: the place where "fewest elements" and "cheapest"
+// disagree (a short route whose inner elements fail vs a longer one that passes).
+
+fn route_specs() -> Vec<(String, GraphSpec)> {
+    let mut out = vec![];
+    for r in 2..=3usize {
+        let mut lens = vec![1usize; r];
+        loop {
+            let mut ops = vec![];
+            let mut next = 2u8;
+            for l in &lens {
+                let mut prev = 0u8;
+                for step in 0..*l {
+                    let to = if step + 1 == *l {
+                        1
+                    } else {
+                        next += 1;
+                        next - 1
+                    };
+                    ops.push(Op::Edge(prev, to));
+                    prev = to;
+                }
+            }
+            let nodes = next;
+            let name = format!("routes:{}", lens.iter().map(|l| l.to_string()).collect::<Vec<_>>().join("-"));
+            out.push((name.clone(), GraphSpec::plain(nodes, &ops)));
+            for a in 0..nodes {
+                for b in 0..nodes {
+                    let mut o = ops.clone();
+                    o.push(Op::Edge(a, b));
+                    out.push((format!("{name}+E{a}-{b}"), GraphSpec::plain(nodes, &o)));
+                }
+            }
+            // next length vector
+            let mut i = 0;
+            while i < r {
+                if lens[i] < 3 {
+                    lens[i] += 1;
+                    break;
+                }
+                lens[i] = 1;
+                i += 1;
+            }
+            if i == r {
+                break;
+            }
+        }
+    }
+    out
+}
+
+/// (minimal cost, fewest elements among the minimal-cost paths, fewest elements among all usable paths)
+fn cheapest_vs_shortest(g: &RefGraph, origin: i64, destination: i64, conds: &[QueryCondition]) -> Option<(u64, usize, usize)> {
+    let us: std::collections::BTreeMap<i64, Usable> = g.elements().into_iter().map(|id| (id, usability(g, id, id == origin, conds, PLAIN_READING).unwrap_or(Usable::Stop))).collect();
+    if us[&origin] == Usable::Stop {
+        return None;
+    }
+    fn walk(g: &RefGraph, us: &std::collections::BTreeMap<i64, Usable>, dest: i64, nodes: &mut Vec<i64>, cost: u64, len: usize, best: &mut Option<(u64, usize, usize)>) {
+        let node = *nodes.last().unwrap();
+        if node == dest {
+            *best = Some(match *best {
+                None => (cost, len, len),
+                Some((c, l, all)) => {
+                    let all = all.min(len);
+                    if cost < c {
+                        (cost, len, all)
+                    } else if cost == c {
+                        (c, l.min(len), all)
+                    } else {
+                        (c, l, all)
+                    }
+                }
+            });
+            return;
+        }
+        let edges: Vec<(i64, i64)> = g.out_edges(node).iter().map(|e| (e.id, e.to)).collect();
+        for (e, to) in edges {
+            if us[&e] == Usable::Stop || us[&to] == Usable::Stop || nodes.contains(&to) {
+                continue;
+            }
+            let c = |u: Usable| if u == Usable::Pass { 1 } else { 2 };
+            nodes.push(to);
+            walk(g, us, dest, nodes, cost + c(us[&e]) + c(us[&to]), len + 2, best);
+            nodes.pop();
+        }
+    }
+    let mut best = None;
+    walk(g, &us, destination, &mut vec![origin], 0, 1, &mut best);
+    best
+}
+
+#[derive(Default)]
+struct RouteCounters {
+    graphs: AtomicU64,
+    searches: AtomicU64,
+    pass_fail: AtomicU64,
+    pass_fail_stop: AtomicU64,
+    cheapest_is_not_shortest: AtomicU64,
+    no_usable_path: AtomicU64,
+}
+
+/// every assignment pass/fail to the inner elements; every assignment
+/// pass/fail/stop when there are at most `stop_limit` inner elements
+fn explore_routes(report: &Report, rc: &RouteCounters, name: &str, spec: &GraphSpec, stop_limit: usize) {
+    let (db, g) = build_memory(spec).unwrap_or_else(|e| engine::machinery_failure(&format!("{name}: {e}")));
+    let (o, d) = (g.slots[0], g.slots[1]);
+    let inner: Vec<i64> = g.elements().into_iter().filter(|id| *id != o && *id != d).collect();
+    let k = inner.len();
+    rc.graphs.fetch_add(1, Ordering::Relaxed);
+    let mut seen = std::collections::HashSet::new();
+    let (mut n, mut n_pf, mut n_pfs, mut n_diff, mut n_none) = (0u64, 0u64, 0u64, 0u64, 0u64);
+    let mut case = |pass: Vec<i64>, stop: Vec<i64>| {
+        let q = path_query(o, d, assignment_conditions(&pass, &stop));
+        n += 1;
+        match cheapest_vs_shortest(&g, o, d, &q.conditions) {
+            None => n_none += 1,
+            Some((_, l, all)) if l > all => n_diff += 1,
+            _ => {}
+        }
+        if let Ok(Some(f)) = check_case(&db, &g, &q, o, d) {
+            let sig = signature("route-assignment", &f.clause);
+            let first = seen.insert(sig.clone());
+            report.violation(&sig, &f.what, if first { replay_value(spec, &g, &q, o, d, &format!("route-assignment:{name}"), &f) } else { Value::Null });
+        }
+    };
+    for a in 0..(1usize << k) {
+        let mut pass = vec![o, d];
+        pass.extend(inner.iter().enumerate().filter(|(i, _)| a >> i & 1 == 0).map(|(_, id)| *id));
+        case(pass, vec![]);
+        n_pf += 1;
+    }
+    if k <= stop_limit {
+        for a in 0..3usize.pow(k as u32) {
+            let (mut x, mut pass, mut stop, mut any_stop) = (a, vec![o, d], vec![], false);
+            for id in &inner {
+                match x % 3 {
+                    0 => pass.push(*id),
+                    2 => {
+                        stop.push(*id);
+                        any_stop = true;
+                    }
+                    _ => {}
+                }
+                x /= 3;
+            }
+            if any_stop {
+                // assignments without a stop are the pass/fail ones above
+                case(pass, stop);
+                n_pfs += 1;
+            }
+        }
+    }
+    rc.searches.fetch_add(n, Ordering::Relaxed);
+    rc.pass_fail.fetch_add(n_pf, Ordering::Relaxed);
+    rc.pass_fail_stop.fetch_add(n_pfs, Ordering::Relaxed);
+    rc.cheapest_is_not_shortest.fetch_add(n_diff, Ordering::Relaxed);
+    rc.no_usable_path.fetch_add(n_none, Ordering::Relaxed);
+}
+
 /// endpoint pairs: every ordered pair of nodes incl. equal; one edge as
 /// origin and as destination; a missing node id and a missing edge id
 fn endpoint_pairs(g: &RefGraph) -> Vec<(i64, i64)> {
@@ -375,13 +538,26 @@ pub fn run(args: &Args) -> i32 {
     if c.build_failures.load(Ordering::SeqCst) > 0 {
         engine::machinery_failure("graphs could not be built through the public API");
     }
+    // (c) route graphs (both tiers)
+    let routes = route_specs();
+    let rc = RouteCounters::default();
+    let stop_limit = env("VERIF_C17_ROUTE_STOP", args.tier.pick(9, 12));
+    engine::par_for(routes.len(), args.seed, |_w, i| explore_routes(&report, &rc, &routes[i].0, &routes[i].1, stop_limit));
     {
         let spec = GraphSpec::plain(3, &[Op::Edge(0, 1), Op::Edge(1, 2), Op::Edge(0, 2)]);
         let (db, g) = build_memory(&spec).unwrap();
         let q = path_query(g.slots[0], g.slots[2], assignment_conditions(&[g.slots[0], g.slots[1], g.slots[2], g.edges[0].id, g.edges[1].id], &[]));
         report.sample(json!({"graph": g.listing(), "query": query_json(&q), "result": run_search(&db, &q).to_json(), "note": "the direct edge fails the conditions (cost 2 + 1), the detour passes (cost 4): the direct path is cheaper"}));
     }
-    report.set("evaluations", json!(c.searches.load(Ordering::SeqCst)));
+    report.set("evaluations", json!(c.searches.load(Ordering::SeqCst) + rc.searches.load(Ordering::SeqCst)));
+    report.set("route_graphs", json!(rc.graphs.load(Ordering::SeqCst)));
+    report.set("route_graph_searches", json!(rc.searches.load(Ordering::SeqCst)));
+    report.set("route_graph_pass_fail_assignments", json!(rc.pass_fail.load(Ordering::SeqCst)));
+    report.set("route_graph_assignments_with_a_stop", json!(rc.pass_fail_stop.load(Ordering::SeqCst)));
+    report.set("route_graph_stop_assignments_up_to_inner_elements", json!(stop_limit));
+    report.set("route_graph_cases_where_every_cheapest_path_has_more_elements_than_the_shortest_usable_path", json!(rc.cheapest_is_not_shortest.load(Ordering::SeqCst)));
+    report.set("route_graph_cases_without_usable_path", json!(rc.no_usable_path.load(Ordering::SeqCst)));
+    report.set("route_graph_family", json!("origin and destination joined by 2..3 internally disjoint routes of 1..3 edges each (36 shapes, up to 8 nodes), alone and with one extra edge for every ordered pair of nodes incl. loops; endpoints pass; every pass/fail assignment of the inner elements, and every pass/fail/stop assignment when there are at most the stated number of inner elements"));
     report.set("distinct_nontrivial", json!(outcomes.len()));
     report.set("rule", json!("every multigraph as ordered edge sequence up to the stated number of edges, and every history with removals up to the stated length; for each: endpoint pairs = all ordered pairs of nodes incl. equal + an edge as origin/destination + missing ids; condition sets = 10 fixed forms, and (up to the stated size) every assignment of pass/fail/stop to the elements realised as `ids(P) and not_beyond ids(S)`; one evaluation = one path search on the real Db compared with brute force over all simple paths. distinct_nontrivial = distinct (graph structure, origin, destination) that have at least one path"));
     report.set("exhaustive", json!(true));
